@@ -135,6 +135,12 @@ def run_obligation(name, spec, bounds, opts=None, shard_depth=None, log=None):
         for o in run([(spec, p, opts, None) for p in items]):
             absorb(o)
             exhausted = exhausted and o["exhausted"]
+            if res["violations"] and time.time() - t0 > opts.get("stop_after_violation_s", 90):
+                # a violation is established; do not spend the budget exhausting the rest of the tree
+                res["inconclusive"].append("exploration stopped early after a violation was found")
+                if pool is not None:
+                    pool.terminate()
+                break
     finally:
         if pool is not None:
             pool.close()
@@ -147,12 +153,25 @@ def run_obligation(name, spec, bounds, opts=None, shard_depth=None, log=None):
     return res
 
 
-def replay(spec, assignment):
-    """Solver-free replay of a counterexample.  Returns the list of violations it reproduces."""
+def _replay(args):
+    spec, assignment = args
     fn = _load(spec)
     cx = ConcreteExplorer(assignment)
     status = cx.run(fn)
-    return status, cx.violations
+    return status, [dict(v) for v in cx.violations]
+
+
+def replay(spec, assignment, isolate=True):
+    """Solver-free replay of a counterexample.  Returns the list of violations it reproduces.
+    Runs in a forked child: harness factories patch classes of /repo and must not leak into later obligations."""
+    if not isolate:
+        return _replay((spec, assignment))
+    pool = mp.get_context("fork").Pool(1)
+    try:
+        return pool.apply(_replay, ((spec, assignment),))
+    finally:
+        pool.close()
+        pool.join()
 
 
 def cvc5_diff(dump_dir, timeout_s=20):
